@@ -246,7 +246,7 @@ def search(rep: C.Report, tier: str, broken):
     # value at zero through the tables
     for boson, exact in ((True, R.JB0), (False, R.JF0)):
         got = np.ravel(interp[boson](0.0))
-        if abs(got[0] - exact) > 1e-6 or abs(got[1]) > 1e-6:
+        if not abs(got[0] - exact) <= 1e-06 or not abs(got[1]) <= 1e-06:
             rep.violation(f"interpolated {names[boson]}(0) is not the known value",
                           {"integral": names[boson], "interpolated": got.tolist(), "exact": exact},
                           finding_key=KEY_RES if abs(got[0] - exact) < 5e-3 else f"C20:zero-interp:{names[boson]}")
@@ -344,7 +344,7 @@ def search(rep: C.Report, tier: str, broken):
         rep.count("history-independence scans")
         dh = max(abs(a - b) / abs(b) for a, b in zip(after, before))
         dr = max(abs(a - w) / abs(w) for a, w in zip(after, want))
-        if dh > 1e-9 or dr > 1e-5:
+        if not dh <= 1e-09 or not dr <= 1e-05:
             rep.violation("the thermal potential at fixed masses and temperature changes after the same object has been evaluated at many other arguments",
                           {"object": label, "T": Th, "msq_over_T2": probes, "before": before, "after": after, "defining_integrals": want,
                            "other_evaluations_in_between": nscan, "rel_change": dh, "rel_diff_from_defining_integrals": dr},
@@ -413,7 +413,7 @@ def search(rep: C.Report, tier: str, broken):
         changed = not (np.array_equal(mB_, keep[0]) and np.array_equal(mF_, keep[1]) and np.array_equal(dB_, keep[2]) and np.array_equal(dF_, keep[3]))
         tol_ = 2e-6 if label == "Integrals()" else 2e-3      # the shipped tables carry the known branch-point resolution (C20-Z) near x = 0
         off_ = max(abs(g - w_) / abs(w_) for g, w_ in zip(got, want))
-        if changed or abs(got[0] - got[-1]) > 1e-12 * abs(got[0]) or off_ > tol_:
+        if changed or not abs(got[0] - got[-1]) <= 1e-12 * abs(got[0]) or (not off_ <= tol_):
             rep.violation("a spectrum array supplied by the caller is modified by potentialOneLoopThermal, or the value at a temperature depends on "
                           "the temperatures evaluated before with the same arrays",
                           {"integrals": label, "temperatures": seq, "values": got, "expected": want, "msqB_after": mB_.tolist(), "msqB_supplied": keep[0].tolist(),
